@@ -884,10 +884,11 @@ def _time(repo, col, R="R-C08-time"):
         sl_ = ix.args[0] if ix.op == "tuple" and ix.args else ix
         if sl_.op != "slice":
             return None
-        zs = T.find(st.args[0].args[0], lambda x: x.op == "mcall" and x.name == "zeros")
+        # the array the window is written into: zeros(shape) + offset, full(shape, offset), ones(shape) * offset, ...
+        zs = T.find(st.args[0].args[0], lambda x: x.op == "mcall" and x.name in ("zeros", "full", "ones", "empty") and x.args and x.args[0].op == "free")
         n_t = None
-        if zs is not None and len(zs.args) > 1:
-            shp = zs.args[1]
+        if zs is not None and (len(zs.args) > 1 or zs.kw.get("shape") is not None):
+            shp = zs.args[1] if len(zs.args) > 1 else zs.kw["shape"]
             n_t = shp.args[0] if shp.op == "tuple" and shp.args else shp
         return sl_.args[0], sl_.args[1], n_t, st.name, sl_.args[2]
 
